@@ -25,7 +25,8 @@ package keeper
 //@ ensures [no_other_deposit_is_marked] forall j int :: j != depositId ==> bridge.DepositIdClaimedMap[j] == old(bridge.DepositIdClaimedMap[j]) && has(bridge.DepositIdClaimedMap, j) == old(has(bridge.DepositIdClaimedMap, j))
 //@ ensures [flagged_aggregate_never_claimable] err == nil ==> ret(GetAggregateByIndex, 0) != nil && !ret(GetAggregateByIndex, 0).Flagged
 //@ ensures [power_reached_threshold_at_report_time] err == nil ==> ret(GetAggregateByIndex, 0).ReporterPower >= ret(GetValidatorCheckpointParamsFromStorage, 0).PowerThreshold
-//@ ensures [threshold_is_the_one_in_force_at_report_time] err == nil && ret(GetAggregateByIndex, 1) >= 0 ==> arg(GetValidatorSetTimestampBefore, targetTimestamp) == div(ret(GetAggregateByIndex, 1), 1000000) && arg(GetValidatorCheckpointParamsFromStorage, timestamp) == ret(GetValidatorSetTimestampBefore, 0)
+//@ ensures [threshold_looked_up_at_report_time] err == nil && ret(GetAggregateByIndex, 1) >= 0 ==> arg(GetValidatorSetTimestampBefore, targetTimestamp) == div(ret(GetAggregateByIndex, 1), 1000000)
+//@ ensures [threshold_is_of_that_validator_set] err == nil ==> arg(GetValidatorCheckpointParamsFromStorage, timestamp) == ret(GetValidatorSetTimestampBefore, 0)
 //@ ensures [aggregate_is_the_one_for_this_deposit_and_index] err == nil ==> arg(GetAggregateByIndex, index) == reportIndex && arg(GetAggregateByIndex, queryId) == ret(GetDepositQueryId, 0) && arg(GetDepositQueryId, depositId) == depositId && arg(DecodeDepositReportValue, reportValue) == ret(GetAggregateByIndex, 0).AggregateValue
 //@ ensures [report_at_least_twelve_hours_old] err == nil ==> blocktime(ctx) - ret(GetAggregateByIndex, 1) >= 43200000000000
 //@ ensures [mints_exactly_the_decoded_amount] err == nil ==> bank.supply == old(bank.supply) + coins(ret(DecodeDepositReportValue, 1))
